@@ -5,7 +5,7 @@ import json, re
 import pvlib
 from pvlib import Check, run_tlc, run_cases, payloads
 
-PRELUDE = 'B1 := [1].bear({}); R1 := (1:2).bear({}); I5 := 5.bear; M1 := %{1: 100, "a": 101, [1]: 102, "c": 103}; M2 := %{[1]: 200, 2: 201, {a: 1}: 202}; O1 := {a: 110, c: 111, a!: 112}; O2 := {b: 120, _p: 121, _q: 122}\n'
+PRELUDE = 'B1 := [1].bear({}); R1 := (1:2).bear({}); I5 := 5.bear; M1 := %{1: 100, "a": 101, [1]: 102, "c": 103}; M2 := %{[1]: 200, 2: 201, {a: 1}: 202}; M3 := [[[1], 300], [[1], 301], [2, 302]].M; O1 := {a: 110, c: 111, a!: 112}; O2 := {b: 120, _p: 121, _q: 122}\n'
 # the operands themselves must be what they were (what they print, contain and index), whatever literal was evaluated
 OPERANDS = "say([M1, M2, O1, O2, M1.S, M2.S, O1.S, O2.S, M1.keys, M2.keys, O1.keys, O2.keys, O1['b], O1['_p], O1['d], O2['a], O2['c], M1[2], M2[1], M1[{a: 1}]])"
 INSPECT = {"B1": "{}", "R1": "{}", "(1:2)": "(1:2:nil)", "1.0": "1.000000", "1.0000001": "1.000000", "1.0000002": "1.000000"}
@@ -123,7 +123,7 @@ def run():
                           {"src": reqs[i]["src"], "observed": operands, "expected": ref_operands})
             elif ev and again != ev[-2]:
                 ck.reject(f"C09:{c['kind']}:second-evaluation-differs", f"{lit} evaluated twice gives {ev[-2]} then {again}", {"src": reqs[i]["src"]})
-        dup = len(c["pairs"]) + sum({"M1": 4, "M2": 3, "O1": 3, "O2": 3}[s] for s in c["spreads"]) > len(c["all"])
+        dup = len(c["pairs"]) + sum({"M1": 4, "M2": 3, "O1": 3, "O2": 3, "M3": 3}[s] for s in c["spreads"]) > len(c["all"])
         nontrivial += 1 if dup else 0
         if len(ev) != len(exp):
             ck.reject(f"C09:{c['kind']}:aborted", f"{lit}: program ended with {o['end']} after {len(ev)} accessors", {"src": reqs[i]["src"], "observed": o["end"], "events": ev})
@@ -156,7 +156,7 @@ def run():
     ck.cov["traces_validated_against_impl"] = len(cases)
     ck.cov["exhaustive"] = True
     ck.cov["rule"] = ("object literals: every sequence of <= MaxPairs pairs over names {a, b, _p, a!, _p!} x ** operands {-, O1, O2, O1 O2, O2 O1}; map literals: every sequence "
-                      "of <= MaxPairs pairs over 20 keys (incl. a descendant of the int 5 next to 5, and 'len', which names a property of maps), any one explicit value being nil, (ints, strs, floats incl. two that print alike, a range, descendants of [1] and (1:2) that == accepts, nil, bools, arrays incl. [1] twice-equal, object) x ** operands {-, M1, O1, M1 O1, O2 M1}; "
+                      "of <= MaxPairs pairs over 20 keys (incl. a descendant of the int 5 next to 5, and 'len', which names a property of maps), any one explicit value being nil, (ints, strs, floats incl. two that print alike, a range, descendants of [1] and (1:2) that == accepts, nil, bools, arrays incl. [1] twice-equal, object) x ** operands {-, M1, O1, M1 O1, O2 M1, M1 M2, M2 M1, M2 O2 M1, M3, M3 M1, M2 M3} (M3 built by Arr#M with a repeated array key); "
                       "MaxPairs 2 quick / 3 thorough; accessors keys/values/items(/private), iteration, len, index for every pool key, structure, printed pairs; "
                       "non-trivial = literals with at least one duplicate key")
     ck.assumptions = ["`m[k]` for an ABSENT key that names one of the map's own properties is left open (the statement only says it is not nil-by-rule)"]
